@@ -337,6 +337,20 @@ def run_gen_coords(spec, ctx, timeout=15, kwargs_extra=None, before_build=None, 
         else:
             cpath = ctx.dir / "input.gro"
             write_gro(cpath, [tuple(a) for a in coords["atoms"]], coords["box"], restart=coords.get("restart"))
+        if coords.get("primed") and coords.get("format") != "pdb":
+            # the same path held another structure (shifted, one atom fewer) that was loaded earlier in this process
+            from polyply.src.topology import Topology
+            real = cpath.read_text()
+            decoy = [(a[0], a[1], a[2], [x + 0.37 for x in a[3]]) for a in coords["atoms"]][:max(1, len(coords["atoms"]) - 1)]
+            write_gro(cpath, decoy, coords["box"])
+            try:
+                early = Topology.from_gmx_topfile(name="earlier", path=top)
+                early.preprocess()
+                early.add_positions_from_file(cpath, skip_res=opts.get("build_res", []),
+                                              resolution="mol" if coords["mode"] == "c" else "meta_mol")
+            except Exception:
+                pass
+            cpath.write_text(real)
         if coords["mode"] == "c":
             kwargs["coordpath"] = cpath
         else:
